@@ -102,12 +102,16 @@ def handle (ws : List String) : Option String :=
           let tbl := infos.foldl (fun (t : Array (Option PtInfo)) ip => t.set! ip.1 (some ip.2))
             (Array.replicate size none)
           let env := mkEnv tbl
-          let evs ← (opsW.filter (· ≠ [])).mapM parseEv
+          -- `R` = a new sampler object resumed from the checkpoint file: the identity on the model state (the recorded
+          -- abstraction of the resumed sampler must equal the model state), legal only between `run()` calls
+          let evs ← (opsW.filter (· ≠ [])).mapM (fun ws => if ws == ["R"] then some none else (parseEv ws).map some)
           -- `run=`: the event sequence so far is one `run()` can issue (`Run.accept`, evaluated on the state before the event)
-          let (_, _, outs) := evs.foldl (fun (acc : St × Option Run.Pos × List String) ev =>
-            let pos' := acc.2.1.bind (fun pos => Run.accept pos acc.1 ev)
-            let (s', out) := match ev with
-              | .op o => let r := step env acc.1 o; (r.1, outStr r.2)
+          let (_, _, outs) := evs.foldl (fun (acc : St × Option Run.Pos × List String) ev? =>
+            let pos' := match ev? with
+              | some ev => acc.2.1.bind (fun pos => Run.accept pos acc.1 ev)
+              | none => acc.2.1.bind (fun pos => if pos == Run.Pos.idle then some Run.Pos.idle else none)
+            let (s', out) := match ev? with
+              | some (.op o) => let r := step env acc.1 o; (r.1, outStr r.2)
               | _ => (acc.1, "ok")
             (s', pos', acc.2.2 ++ [out ++ " # " ++ stStr full s' ++ " # " ++ invStr env s' ++ s!" run={pos'.isSome}"]))
             (init nBatch, some Run.Pos.idle, [])
